@@ -36,7 +36,7 @@ Proof.
   - intro H. exists x. split; [exact H|apply Nat.eqb_refl].
 Qed.
 
-Ltac proj := cbn [st cp cmd fft ctxc dead ret race set_st complete_ok] in *.
+Ltac proj := cbn [st cp cmd fft ctxc dead ret snap set_st complete_ok] in *.
 
 Ltac boolp :=
   repeat match goal with
@@ -78,7 +78,7 @@ Qed.
 
 Lemma step_CmdStart g c s n s' : step g c s (CmdStart n) = Some s' ->
   n < size g /\ st s n = Running /\ cmd s n = false /\ inner_cancelled s = false /\
-  s' = mkState (st s) (cp s) (upd (cmd s) n true) (fft s) (ctxc s) (dead s) (ret s) (race s).
+  s' = mkState (st s) (cp s) (upd (cmd s) n true) (fft s) (ctxc s) (dead s) (ret s) (snap s).
 Proof.
   unfold step. intro H. grd H E. boolp. inversion H. auto.
 Qed.
@@ -110,14 +110,14 @@ Qed.
 
 Lemma step_CtxCancel g c s s' : step g c s CtxCancel = Some s' ->
   ctxc s = false /\
-  s' = mkState (st s) (cp s) (cmd s) (fft s) true (dead s) (ret s) (race s).
+  s' = mkState (st s) (cp s) (cmd s) (fft s) true (dead s) (ret s) (snap s).
 Proof.
   unfold step. intro H. grd H E. boolp. inversion H. auto.
 Qed.
 
 Lemma step_WorkerExit g c s s' : step g c s WorkerExit = Some s' ->
   closed s = true /\ running g s + dead s < W c /\
-  s' = mkState (st s) (cp s) (cmd s) (fft s) (ctxc s) (S (dead s)) (ret s) (race s).
+  s' = mkState (st s) (cp s) (cmd s) (fft s) (ctxc s) (S (dead s)) (ret s) (snap s).
 Proof.
   unfold step. intro H. grd H E. boolp. inversion H. auto.
 Qed.
@@ -125,7 +125,7 @@ Qed.
 Lemma step_WalkReturn g c s s' : step g c s WalkReturn = Some s' ->
   ret s = false /\ (all_final g s = true \/ inner_cancelled s = true) /\
   s' = mkState (st s) (if inner_cancelled s then fun _ => true else cp s)
-               (cmd s) (fft s) (ctxc s) (dead s) true (race s).
+               (cmd s) (fft s) (ctxc s) (dead s) true (fun m => entry_of (st s m)).
 Proof.
   unfold step. intro H. grd H E. boolp. inversion H.
   repeat split; auto. apply orb_true_iff. assumption.
@@ -216,14 +216,14 @@ Lemma complete_fail_spec g c s n :
   ctxc (complete_fail g c s n) = ctxc s /\
   dead (complete_fail g c s n) = dead s /\
   ret (complete_fail g c s n) = ret s /\
-  race (complete_fail g c s n) = (race s || ret s) /\
+  snap (complete_fail g c s n) = snap s /\
   ((fft s = true /\ fft (complete_fail g c s n) = true /\ cp (complete_fail g c s n) = cp s) \/
    (fft s = false /\ ff c = true /\ fft (complete_fail g c s n) = true /\
     cp (complete_fail g c s n) = (fun _ => true)) \/
    (fft s = false /\ ff c = false /\ fft (complete_fail g c s n) = false /\
     cp (complete_fail g c s n) = (fun m => cp s m || mem_nat m (desc g n)))).
 Proof.
-  unfold complete_fail. destruct (fft s) eqn:EF; [|destruct (ff c) eqn:EC]; cbn [st cp cmd fft ctxc dead ret race];
+  unfold complete_fail. destruct (fft s) eqn:EF; [|destruct (ff c) eqn:EC]; cbn [st cp cmd fft ctxc dead ret snap];
     repeat split; auto.
   - right. left. auto.
   - right. right. auto.
@@ -310,13 +310,12 @@ Record Inv (g : graph) (c : config) (s : state) : Prop := {
   I_ret   : ret s = true ->
             (forall n, n < size g -> is_final (st s n) = true) \/
             ((fft s = true \/ ctxc s = true) /\ forall n, cp s n = true);
-  I_dead  : dead s > 0 -> closed s = true;
-  I_race  : race s = true -> ret s = true /\ (fft s = true \/ ctxc s = true)
+  I_dead  : dead s > 0 -> closed s = true
 }.
 
 Lemma inv_init g c : Inv g c (init g).
 Proof.
-  constructor; unfold init; cbn [st cp cmd fft ctxc dead ret race].
+  constructor; unfold init; cbn [st cp cmd fft ctxc dead ret snap].
   - intros n d HA HI. destruct (deps g n) eqn:E; [destruct HI|].
     unfold active in HA. repeat (destruct HA as [HA|HA]; try discriminate HA).
   - intros _ n HP. destruct (deps g n) as [|d l] eqn:E; [discriminate HP|].
@@ -328,7 +327,6 @@ Proof.
   - intro H. discriminate H.
   - intro H. discriminate H.
   - intro H. lia.
-  - intro H. discriminate H.
 Qed.
 
 (* a status change at one node, nothing else *)
@@ -343,7 +341,7 @@ Lemma inv_point g c s n x :
   Inv g c (set_st s (upd (st s) n x)).
 Proof.
   intros HI Ho1 Ho2 Hx1 Hx2 Hx3 Hact Hfin Hskip Hab.
-  destruct HI as [Jd Je Jf Js Jc Ja Jt Jr Jdd Jrace].
+  destruct HI as [Jd Je Jf Js Jc Ja Jt Jr Jdd].
   constructor; proj.
   - intros m d HA Hd.
     assert (Hsd : st s d = Ok).
@@ -378,13 +376,11 @@ Proof.
     + subst m. rewrite upd_same. apply Hfin. apply H. exact Hm.
     + rewrite upd_other by exact E. apply H. exact Hm.
   - exact Jdd.
-  - exact Jrace.
 Qed.
 
 Lemma complete_fail_facts g c s n : topo g -> Inv g c s ->
   let s' := complete_fail g c s n in
   st s' = upd (st s) n Failed /\ ctxc s' = ctxc s /\ dead s' = dead s /\ ret s' = ret s /\
-  race s' = (race s || ret s) /\
   (fft s = true -> fft s' = true) /\
   (forall m, cp s m = true -> cp s' m = true) /\
   (fft s' = true -> ff c = true /\ forall m, cp s' m = true) /\
@@ -392,7 +388,7 @@ Lemma complete_fail_facts g c s n : topo g -> Inv g c s ->
   (forall m, cp s' m = true -> cp s m = true \/ reach g n m \/ fft s' = true).
 Proof.
   intros HT HI s'. subst s'.
-  destruct (complete_fail_spec g c s n) as [E1 [_ [E3 [E4 [E5 [E6 Hc]]]]]].
+  destruct (complete_fail_spec g c s n) as [E1 [_ [E3 [E4 [E5 [_ Hc]]]]]].
   repeat (split; [assumption|]).
   destruct Hc as [[F [F' C]]|[[F [FC [F' C]]]|[F [FC [F' C]]]]]; rewrite F', C.
   - destruct (I_fft _ _ _ HI F) as [A B]. repeat split; auto.
@@ -411,7 +407,7 @@ Lemma inv_complete_fail g c s n : topo g -> Inv g c s -> n < size g ->
   (st s n = Running \/ st s n = Queued) -> Inv g c (complete_fail g c s n).
 Proof.
   intros HT HI Hn Hold.
-  destruct (complete_fail_facts g c s n HT HI) as [E1 [E3 [E4 [E5 [E6 [M1 [M2 [M3 [M4 M5]]]]]]]]].
+  destruct (complete_fail_facts g c s n HT HI) as [E1 [E3 [E4 [E5 [M1 [M2 [M3 [M4 M5]]]]]]]].
   assert (Hact : active (st s n)).
   { unfold active. destruct Hold as [H|H]; rewrite H; auto. }
   assert (Hnf : is_final (st s n) = false) by (destruct Hold as [H|H]; rewrite H; reflexivity).
@@ -420,8 +416,8 @@ Proof.
   assert (Hnp : st s n <> Parked) by (destruct Hold as [H|H]; rewrite H; discriminate).
   assert (Hns : st s n <> Skipped) by (destruct Hold as [H|H]; rewrite H; discriminate).
   assert (Hna : st s n <> Aborted) by (destruct Hold as [H|H]; rewrite H; discriminate).
-  destruct HI as [Jd Je Jf Js Jc Ja Jt Jr Jdd Jrace].
-  constructor; rewrite ?E1, ?E3, ?E4, ?E5, ?E6.
+  destruct HI as [Jd Je Jf Js Jc Ja Jt Jr Jdd].
+  constructor; rewrite ?E1, ?E3, ?E4, ?E5.
   - intros m d HA Hd.
     assert (Hsd : st s d = Ok).
     { destruct (Nat.eq_dec m n) as [E|E].
@@ -463,13 +459,6 @@ Proof.
     + right. split; [left; apply M1; exact H|]. intro m. apply M2. apply H2.
     + right. split; [right; exact H|]. intro m. apply M2. apply H2.
   - unfold closed. rewrite E3, E5. exact Jdd.
-  - intro HR. apply orb_true_iff in HR.
-    assert (Hret : ret s = true) by (destruct HR as [HR|HR]; [apply Jrace; exact HR|exact HR]).
-    split; [exact Hret|].
-    destruct (Jr Hret) as [H|[[H|H] _]].
-    + rewrite (H n Hn) in Hnf. discriminate Hnf.
-    + left. apply M1. exact H.
-    + right. exact H.
 Qed.
 
 Lemma inv_complete_ok g c s n : Inv g c s -> n < size g -> st s n = Running ->
@@ -484,7 +473,6 @@ Proof.
   assert (Ectx : ctxc (complete_ok g s n) = ctxc s) by reflexivity.
   assert (Edead : dead (complete_ok g s n) = dead s) by reflexivity.
   assert (Eret : ret (complete_ok g s n) = ret s) by reflexivity.
-  assert (Erace : race (complete_ok g s n) = (race s || ret s)) by reflexivity.
   set (s' := complete_ok g s n) in *. clearbody s'.
   assert (K1 : forall m y, st s' m = y -> y <> Ok -> y <> Ready -> st s m = y).
   { intros m y Hy Y1 Y2. destruct (HC m) as [E|[[_ E]|[_ [E _]]]]; congruence. }
@@ -494,8 +482,8 @@ Proof.
   { intros m Hm. destruct (HC m) as [E|[[E _]|[E _]]]; congruence. }
   assert (K4 : forall d, d <> n -> st s d <> Ok -> st s' d <> Ok).
   { intros d Hd Hno. destruct (HC d) as [E|[[E _]|[_ [E _]]]]; congruence. }
-  destruct HI as [Jd Je Jf Js Jc Ja Jt Jr Jdd Jrace].
-  constructor; rewrite ?Ecp, ?Efft, ?Ectx, ?Edead, ?Eret, ?Erace.
+  destruct HI as [Jd Je Jf Js Jc Ja Jt Jr Jdd].
+  constructor; rewrite ?Ecp, ?Efft, ?Ectx, ?Edead, ?Eret.
   - intros m d HA Hd. destruct (HC m) as [E|[[E _]|[_ [_ [_ E]]]]].
     + rewrite E in HA. apply K2. apply (Jd m d); assumption.
     + subst m. apply K2. apply (Jd n d); [|exact Hd]. rewrite HR. unfold active. auto.
@@ -513,10 +501,6 @@ Proof.
   - intro Hret. destruct (Jr Hret) as [H|H]; [|right; exact H].
     specialize (H n Hn). rewrite HR in H. discriminate H.
   - unfold closed. rewrite Ectx, Eret. exact Jdd.
-  - intro H. apply orb_true_iff in H.
-    assert (Hret : ret s = true) by (destruct H as [H|H]; [apply Jrace; exact H|exact H]).
-    split; [exact Hret|]. destruct (Jr Hret) as [H1|[H1 _]]; [|exact H1].
-    specialize (H1 n Hn). rewrite HR in H1. discriminate H1.
 Qed.
 
 Lemma inner_cancelled_true s : inner_cancelled s = true <-> fft s = true \/ ctxc s = true.
@@ -545,7 +529,7 @@ Proof.
     apply inv_point; rewrite ?Hst; try discriminate; auto.
     intros _. unfold active. auto.
   - apply step_CmdStart in HS. destruct HS as [_ [_ [_ [_ E]]]]. subst s'.
-    destruct HI as [Jd Je Jf Js Jc Ja Jt Jr Jdd Jrace]. constructor; assumption.
+    destruct HI as [Jd Je Jf Js Jc Ja Jt Jr Jdd]. constructor; assumption.
   - apply step_Reject in HS. destruct HS as [Hn [Hst [_ E]]]. subst s'.
     apply inv_complete_fail; auto.
   - apply step_FinishOk in HS. destruct HS as [Hn [Hst E]]. subst s'.
@@ -557,7 +541,7 @@ Proof.
     apply inv_point; rewrite ?Hst; try discriminate; auto.
     intros _. unfold active. auto.
   - apply step_CtxCancel in HS. destruct HS as [Hc E]. subst s'.
-    destruct HI as [Jd Je Jf Js Jc Ja Jt Jr Jdd Jrace]. constructor; proj.
+    destruct HI as [Jd Je Jf Js Jc Ja Jt Jr Jdd]. constructor; proj.
     + exact Jd.
     + exact Je.
     + exact Jf.
@@ -568,9 +552,8 @@ Proof.
     + intro H. destruct (Jr H) as [H1|[_ H1]]; [left; exact H1|right].
       split; [right; reflexivity|exact H1].
     + intros _. reflexivity.
-    + intro H. destruct (Jrace H) as [H1 _]. split; [exact H1|right; reflexivity].
   - apply step_WorkerExit in HS. destruct HS as [Hc [_ E]]. subst s'.
-    destruct HI as [Jd Je Jf Js Jc Ja Jt Jr Jdd Jrace]. constructor; proj.
+    destruct HI as [Jd Je Jf Js Jc Ja Jt Jr Jdd]. constructor; proj.
     + exact Jd.
     + exact Je.
     + exact Jf.
@@ -580,9 +563,8 @@ Proof.
     + exact Jt.
     + exact Jr.
     + intros _. exact Hc.
-    + exact Jrace.
   - apply step_WalkReturn in HS. destruct HS as [Hr [Hor E]]. subst s'.
-    destruct HI as [Jd Je Jf Js Jc Ja Jt Jr Jdd Jrace]. constructor; proj.
+    destruct HI as [Jd Je Jf Js Jc Ja Jt Jr Jdd]. constructor; proj.
     + exact Jd.
     + exact Je.
     + intros a n HF HRe. destruct (inner_cancelled s); [reflexivity|]. eapply Jf; eassumption.
@@ -596,7 +578,6 @@ Proof.
       * right. apply inner_cancelled_true in E. split; [exact E|reflexivity].
       * left. destruct Hor as [H|H]; [|discriminate H]. apply all_final_spec. exact H.
     + intros _. unfold closed. proj. apply orb_true_r.
-    + intro H. destruct (Jrace H) as [H1 _]. rewrite H1 in Hr. discriminate Hr.
 Qed.
 
 Lemma run_from_inv g c evs : topo g -> forall s s', Inv g c s -> run_from g c s evs = Some s' -> Inv g c s'.
@@ -1261,19 +1242,212 @@ Proof.
   - destruct H2 as [A|A]; [auto|congruence|congruence].
 Qed.
 
-(* the completions map is written after Walk handed it to its caller only on the cancellation
-   paths (fail-fast or outer cancellation) *)
-Lemma no_race_partial : forall g c s, topo g -> wf_graph g -> reachable g c s ->
-  race s = true -> ret s = true /\ (fft s = true \/ ctxc s = true).
+(* ------------------------------------------------------------------ C04: the map handed to the caller *)
+
+(* Walk hands out a snapshot: no event after the return changes the map the caller holds.  (Before
+   "fix: Walk returns a copy of the completions ..." the caller held w.completions itself and every
+   late FinishOk / FinishFail / Reject wrote it while the caller read it without the mutex.) *)
+Lemma step_snap g c s e s' : step g c s e = Some s' ->
+  (ret s' = ret s /\ snap s' = snap s) \/
+  (e = WalkReturn /\ ret s = false /\ ret s' = true /\ st s' = st s /\
+   snap s' = fun m => entry_of (st s m)).
 Proof.
-  intros g c s HT _ Hreach H. apply (I_race _ _ _ (reachable_inv g c s HT Hreach)). exact H.
+  intros HS. destruct e as [n|n|n|n|n|n|n|n| | |].
+  - apply step_Start in HS. destruct HS as [_ [_ E]]. subst s'. left. split; reflexivity.
+  - apply step_CancelRecv in HS. destruct HS as [_ [_ [_ E]]]. subst s'. left. split; reflexivity.
+  - apply step_Pick in HS. destruct HS as [_ [_ [_ E]]]. subst s'. left. split; reflexivity.
+  - apply step_CmdStart in HS. destruct HS as [_ [_ [_ [_ E]]]]. subst s'. left. split; reflexivity.
+  - apply step_Reject in HS. destruct HS as [_ [_ [_ E]]]. subst s'. left.
+    destruct (complete_fail_spec g c s n) as [_ [_ [_ [_ [E5 [E6 _]]]]]]. split; assumption.
+  - apply step_FinishOk in HS. destruct HS as [_ [_ E]]. subst s'. left. split; reflexivity.
+  - apply step_FinishFail in HS. destruct HS as [_ [_ E]]. subst s'. left.
+    destruct (complete_fail_spec g c s n) as [_ [_ [_ [_ [E5 [E6 _]]]]]]. split; assumption.
+  - apply step_FinishCancelled in HS. destruct HS as [_ [_ [_ E]]]. subst s'. left. split; reflexivity.
+  - apply step_CtxCancel in HS. destruct HS as [_ E]. subst s'. left. split; reflexivity.
+  - apply step_WorkerExit in HS. destruct HS as [_ [_ E]]. subst s'. left. split; reflexivity.
+  - apply step_WalkReturn in HS. destruct HS as [Hr [_ E]]. subst s'. right. repeat split. exact Hr.
 Qed.
 
-Lemma no_race_refuted : exists g c evs s, run g c evs = Some s /\ race s = true.
+Lemma no_race : forall g c s e s', step g c s e = Some s' -> ret s = true ->
+  forall n, snap s' n = snap s n.
+Proof.
+  intros g c s e s' HS Hr n. destruct (step_snap _ _ _ _ _ HS) as [[_ E]|[_ [F _]]].
+  - rewrite E. reflexivity.
+  - rewrite F in Hr. discriminate Hr.
+Qed.
+
+Lemma run_from_ret g c evs : forall s s', run_from g c s evs = Some s' -> ret s = true -> ret s' = true.
+Proof.
+  induction evs as [|e r IH]; intros s s' HR Hr; simpl in HR.
+  - inversion HR. subst. exact Hr.
+  - destruct (step g c s e) as [s1|] eqn:E; [|discriminate HR].
+    apply (IH s1 s' HR). destruct (step_flags _ _ _ _ _ E) as [_ [_ [A _]]]. apply A. exact Hr.
+Qed.
+
+(* ... whatever happens after the return, for as long as it takes *)
+Lemma no_race_run : forall g c evs s s', run_from g c s evs = Some s' -> ret s = true ->
+  forall n, snap s' n = snap s n.
+Proof.
+  intros g c. induction evs as [|e r IH]; intros s s' HR Hr n; simpl in HR.
+  - inversion HR. reflexivity.
+  - destruct (step g c s e) as [s1|] eqn:E; [|discriminate HR].
+    rewrite (IH s1 s' HR); [apply (no_race g c s e s1 E Hr)|].
+    destruct (step_flags _ _ _ _ _ E) as [_ [_ [A _]]]. apply A. exact Hr.
+Qed.
+
+(* what Walk returns is exactly what was recorded when it returned *)
+Lemma snapshot_exact : forall g c s s', step g c s WalkReturn = Some s' ->
+  forall n, snap s' n = own s n /\ own s' n = own s n.
+Proof.
+  intros g c s s' HS n. apply step_WalkReturn in HS. destruct HS as [_ [_ E]]. subst s'.
+  split; reflexivity.
+Qed.
+
+(* the snapshot against the walker's own map, as an invariant *)
+Record SnapInv (g : graph) (s : state) : Prop := {
+  S_before : ret s = false -> forall n, snap s n = Absent;
+  S_sound  : forall n, snap s n <> Absent -> snap s n = entry_of (st s n);
+  S_full   : ret s = true -> fft s = false -> ctxc s = false ->
+             forall n, n < size g -> snap s n = entry_of (st s n) /\ is_final (st s n) = true
+}.
+
+Lemma legal_not_final b x y : legal b x y -> is_final x = false.
+Proof. destruct x, y; simpl; intro H; try reflexivity; contradiction. Qed.
+
+Lemma entry_of_final x : entry_of x <> Absent -> is_final x = true.
+Proof. destruct x; simpl; intro H; try reflexivity; contradiction H; reflexivity. Qed.
+
+Lemma step_final_stable g c s e s' m : step g c s e = Some s' ->
+  is_final (st s m) = true -> st s' m = st s m.
+Proof.
+  intros HS HF. destruct (step_status_cases _ _ _ _ _ HS m) as [E|L]; [exact E|].
+  apply legal_not_final in L. rewrite L in HF. discriminate HF.
+Qed.
+
+Lemma snapinv_init g : SnapInv g (init g).
+Proof.
+  constructor; unfold init; cbn [st ret snap fft ctxc].
+  - intros _ n. reflexivity.
+  - intros n H. contradiction H. reflexivity.
+  - intro H. discriminate H.
+Qed.
+
+Lemma snapinv_step g c s e s' : SnapInv g s -> step g c s e = Some s' -> SnapInv g s'.
+Proof.
+  intros [Sb Ss Sf] HS.
+  destruct (step_flags _ _ _ _ _ HS) as [Ff [Fc _]].
+  destruct (step_snap _ _ _ _ _ HS) as [[Er Es]|[He [Hr [Hr' [Est Es]]]]].
+  - constructor; rewrite ?Er, ?Es.
+    + exact Sb.
+    + intros n Hn. rewrite (Ss n Hn) in Hn |- *.
+      rewrite (step_final_stable _ _ _ _ _ n HS (entry_of_final _ Hn)). reflexivity.
+    + intros Hret EF EC n Hn.
+      assert (EF0 : fft s = false) by (destruct (fft s); [rewrite Ff in EF by reflexivity; discriminate EF|reflexivity]).
+      assert (EC0 : ctxc s = false) by (destruct (ctxc s); [rewrite Fc in EC by reflexivity; discriminate EC|reflexivity]).
+      destruct (Sf Hret EF0 EC0 n Hn) as [A B].
+      rewrite (step_final_stable _ _ _ _ _ n HS B). split; assumption.
+  - constructor; rewrite ?Hr', ?Es, ?Est.
+    + intro H. discriminate H.
+    + intros n _. reflexivity.
+    + intros _ EF EC n Hn. split; [reflexivity|].
+      assert (EF0 : fft s = false) by (destruct (fft s); [rewrite Ff in EF by reflexivity; discriminate EF|reflexivity]).
+      assert (EC0 : ctxc s = false) by (destruct (ctxc s); [rewrite Fc in EC by reflexivity; discriminate EC|reflexivity]).
+      subst e. apply step_WalkReturn in HS. destruct HS as [_ [[HA|HA] _]].
+      * apply (proj1 (all_final_spec g s) HA). exact Hn.
+      * apply inner_cancelled_true in HA. destruct HA; congruence.
+Qed.
+
+Lemma run_from_snapinv g c evs : forall s s', SnapInv g s ->
+  run_from g c s evs = Some s' -> SnapInv g s'.
+Proof.
+  induction evs as [|e r IH]; intros s s' HS HR; simpl in HR.
+  - inversion HR. subst. exact HS.
+  - destruct (step g c s e) as [s1|] eqn:E; [|discriminate HR].
+    apply (IH s1 s'); [eapply snapinv_step; eassumption|exact HR].
+Qed.
+
+Lemma reachable_snapinv g c s : reachable g c s -> SnapInv g s.
+Proof.
+  intros [evs H]. eapply run_from_snapinv; [apply snapinv_init|exact H].
+Qed.
+
+(* until Walk returns the caller has nothing *)
+Lemma snapshot_before_return : forall g c s, reachable g c s -> ret s = false ->
+  forall n, snap s n = Absent.
+Proof. intros g c s HR. apply (S_before _ _ (reachable_snapinv g c s HR)). Qed.
+
+(* every entry the caller sees is, and stays, the entry of the walker's own map: the failure summary,
+   the success count and the exit status computed from the snapshot are never contradicted later *)
+Lemma entry_of_inv x : (entry_of x = Success -> x = Ok) /\ (entry_of x = Failure -> x = Failed).
+Proof. destruct x; simpl; split; intro H; try discriminate H; reflexivity. Qed.
+
+Lemma snapshot_sound : forall g c s n, reachable g c s ->
+  (snap s n = Success -> st s n = Ok) /\ (snap s n = Failure -> st s n = Failed).
+Proof.
+  intros g c s n HR. pose proof (S_sound _ _ (reachable_snapinv g c s HR) n) as H.
+  split; intro E; apply entry_of_inv; rewrite <- E; symmetry; apply H; rewrite E; discriminate.
+Qed.
+
+(* without fail-fast trigger and without interrupt the snapshot is the whole, final map: what
+   cmds/build.go sees on these walks is what it saw before the fix *)
+Lemma snapshot_complete : forall g c s, reachable g c s ->
+  ret s = true -> fft s = false -> ctxc s = false ->
+  forall n, n < size g -> snap s n = own s n /\ is_final (st s n) = true.
+Proof. intros g c s HR. apply (S_full _ _ (reachable_snapinv g c s HR)). Qed.
+
+(* a walk that ended by fail-fast shows its caller a failure: failFastTriggered is set after the failed
+   completion is recorded (same critical section of onComplete), the snapshot is taken later *)
+Definition FftInv (g : graph) (s : state) : Prop :=
+  fft s = true -> exists a, a < size g /\ st s a = Failed.
+
+Lemma fftinv_step g c s e s' : FftInv g s -> step g c s e = Some s' -> FftInv g s'.
+Proof.
+  intros HI HS EF'. destruct (fft s) eqn:EF.
+  - destruct (HI EF) as [a [Ha HF]]. exists a. split; [exact Ha|].
+    rewrite (step_final_stable _ _ _ _ _ a HS); [exact HF|rewrite HF; reflexivity].
+  - clear HI. destruct e as [n|n|n|n|n|n|n|n| | |].
+    + apply step_Start in HS. destruct HS as [_ [_ E]]. subst s'. proj. congruence.
+    + apply step_CancelRecv in HS. destruct HS as [_ [_ [_ E]]]. subst s'. proj. congruence.
+    + apply step_Pick in HS. destruct HS as [_ [_ [_ E]]]. subst s'. proj. congruence.
+    + apply step_CmdStart in HS. destruct HS as [_ [_ [_ [_ E]]]]. subst s'. proj. congruence.
+    + apply step_Reject in HS. destruct HS as [Hn [_ [_ E]]]. subst s'. exists n. split; [exact Hn|].
+      destruct (complete_fail_spec g c s n) as [E1 _]. rewrite E1. apply upd_same.
+    + apply step_FinishOk in HS. destruct HS as [_ [_ E]]. subst s'. proj. congruence.
+    + apply step_FinishFail in HS. destruct HS as [Hn [_ E]]. subst s'. exists n. split; [exact Hn|].
+      destruct (complete_fail_spec g c s n) as [E1 _]. rewrite E1. apply upd_same.
+    + apply step_FinishCancelled in HS. destruct HS as [_ [_ [_ E]]]. subst s'. proj. congruence.
+    + apply step_CtxCancel in HS. destruct HS as [_ E]. subst s'. proj. congruence.
+    + apply step_WorkerExit in HS. destruct HS as [_ [_ E]]. subst s'. proj. congruence.
+    + apply step_WalkReturn in HS. destruct HS as [_ [_ E]]. subst s'. proj. congruence.
+Qed.
+
+Lemma run_from_fftinv g c evs : forall s s', FftInv g s -> run_from g c s evs = Some s' -> FftInv g s'.
+Proof.
+  induction evs as [|e r IH]; intros s s' HS HR; simpl in HR.
+  - inversion HR. subst. exact HS.
+  - destruct (step g c s e) as [s1|] eqn:E; [|discriminate HR].
+    apply (IH s1 s'); [eapply fftinv_step; eassumption|exact HR].
+Qed.
+
+Lemma snapshot_failfast_has_failure : forall g c s s', reachable g c s ->
+  step g c s WalkReturn = Some s' -> fft s = true -> exists a, a < size g /\ snap s' a = Failure.
+Proof.
+  intros g c s s' [evs HR] HS EF.
+  assert (HI : FftInv g s).
+  { eapply run_from_fftinv; [|exact HR]. intro H. discriminate H. }
+  destruct (HI EF) as [a [Ha HF]]. exists a. split; [exact Ha|].
+  destruct (snapshot_exact g c s s' HS a) as [E _]. rewrite E. unfold own. rewrite HF. reflexivity.
+Qed.
+
+(* the situation the fix is about: fail-fast, two independent nodes, one fails, Walk returns, the other one
+   completes afterwards -- its completion reaches the walker's own map and not the caller's *)
+Lemma late_completion_example :
+  exists g c evs s, run g c evs = Some s /\ ret s = true /\
+    own s 0 = Failure /\ snap s 0 = Failure /\ own s 1 = Success /\ snap s 1 = Absent.
 Proof.
   exists (antichain 2), (mkConfig 2 true),
     [Start 0; Start 1; Pick 0; Pick 1; FinishFail 0; WalkReturn; FinishOk 1].
-  eexists. split; vm_compute; reflexivity.
+  eexists. split; [vm_compute; reflexivity|]. repeat split; vm_compute; reflexivity.
 Qed.
 
 (* ------------------------------------------------------------------ C05 / C18 *)
